@@ -183,6 +183,7 @@ func c09Expected(m *ref.Matcher, w *c09World, method, path string, hdr map[strin
 
 type c09Case struct {
 	Ops     []c09Op           `json:"history"`
+	Other   []c09Op           `json:"other_history_reaching_the_same_state,omitempty"`
 	Method  string            `json:"request_method"`
 	Path    string            `json:"path"`
 	Headers map[string]string `json:"request_headers"`
@@ -279,6 +280,7 @@ func c09Run(r *core.Run) {
 	r.Assumptions = []string{"AutoHead is off (its HEAD twin is a separate flat registration by C11; not asserted here)", "one value per request header"}
 	var mu sync.Mutex
 	digests := map[string]string{}
+	firstHist := map[string][]c09Op{}
 	matchers := sync.Pool{New: func() interface{} { return ref.NewMatcher() }}
 	step := func(hist []int, l *core.Local) (string, bool) {
 		hops := make([]c09Op, len(hist))
@@ -297,10 +299,12 @@ func c09Run(r *core.Run) {
 		old, seen := digests[key]
 		if !seen {
 			digests[key] = dig
+			firstHist[key] = hops
 		}
+		other := firstHist[key]
 		mu.Unlock()
 		if seen && old != dig {
-			l.Violate("history-dependent-outcome", "two histories reaching the same registrations and constraint sets answer the probe set differently: "+key, c09Case{Ops: hops})
+			l.Violate("history-dependent-outcome", "two histories reaching the same registrations and constraint sets answer the probe set differently: "+key, c09Case{Ops: hops, Other: other})
 		}
 		if len(hist) == depth && len(hist)%2 == 1 {
 			l.Sample(hops)
@@ -329,8 +333,18 @@ func c09Replay(raw json.RawMessage) (bool, string) {
 	}
 	m := ref.NewMatcher()
 	if c.Method == "" {
-		// history-dependent outcome: compare against the canonical history for the same state
-		return false, "differential finding: re-run the check"
+		// history-dependent outcome: both histories must answer the probe set identically
+		w2, ok2 := c09Apply(c.Other)
+		if !ok2 {
+			return false, "other history not executable as recorded"
+		}
+		l := core.NewLocal()
+		d1 := c09Probe(m, w, c.Ops, l)
+		d2 := c09Probe(m, w2, c.Other, l)
+		if d1 != d2 {
+			return true, "the two histories reach the same registrations and constraints but answer the probe set differently"
+		}
+		return false, ""
 	}
 	hit, _, status, pan := c09Serve(w, c.Method, c.Path, c.Headers)
 	if pan != nil {
